@@ -27,6 +27,9 @@ int main(void)
       initMatrix(&ps); PCAScorePredictor(x, m, npc, ps); pr_matrix("pred_same", ps); DelMatrix(&ps);
       initMatrix(&pn); PCAScorePredictor(xnew, m, npc, pn); pr_matrix("pred_new", pn); DelMatrix(&pn);
       initMatrix(&bt); PCAIndVarPredictor(m->scores, m->loadings, m->colaverage, m->colscaling, npc, bt); pr_matrix("back", bt); DelMatrix(&bt);
+      { matrix *rm; size_t kh = (m->scores->col + 1) / 2;   /* residuals after all and after half of the components */
+        initMatrix(&rm); GetResidualMatrix(x, m, m->scores->col, rm); pr_matrix("resid_all", rm); DelMatrix(&rm);
+        initMatrix(&rm); GetResidualMatrix(x, m, kh, rm); pr_matrix("resid_half", rm); DelMatrix(&rm); }
       verif_nproc_override = 0;
       DelPCAModel(&m); DelMatrix(&x); DelMatrix(&xnew);
     }
